@@ -61,6 +61,11 @@ def gen_e2e(r, tier):
     """keyed operators end to end, judged shard by shard (the C12 driver: rows of shard p = rows whose key the model sends
     to p)"""
     import progen
+    import props.c01 as c01
+    # Repartition places each row in the shard its function returned — also when the same slice is repartitioned twice
+    for p in c01.two_repartitions():
+        for cfg in ("local", "bm M2 P4"):
+            yield "%s ;; run %s" % (cfg, p)
     n = 6 if tier == "quick" else 120
     for op in KEYED:
         for feed in ("src", "pipe", "result", "presult", "twostage"):
